@@ -318,8 +318,12 @@ class SymVC(BaseVC):
             o = object.__new__(cls)
             o._v = v._pyvc_value() if hasattr(v, "_pyvc_value") else v
             return o
-        Box = type(flat.__name__, (flat,), {"__new__": _new, "_pyvc_value": lambda self: self._v,
-                                            "__repr__": lambda self: f"{flat.__name__}<{self._v}>"})
+        # reflected operators are not overridden by the repository classes: Python falls back to plain float arithmetic
+        refl = {"__radd__": lambda self, o: o + self._v, "__rsub__": lambda self, o: o - self._v, "__rmul__": lambda self, o: o * self._v,
+                "__rtruediv__": lambda self, o: o / self._v, "__neg__": lambda self: -self._v, "__abs__": lambda self: abs(self._v)}
+        ns = {"__new__": _new, "_pyvc_value": lambda self: self._v, "__repr__": lambda self: f"{flat.__name__}<{self._v}>"}
+        ns.update({k: v for k, v in refl.items() if not hasattr(flat, k)})
+        Box = type(flat.__name__, (flat,), ns)
         self.loader.cache[key] = Box
         return Box
 
